@@ -1,6 +1,9 @@
 package props
 
 import (
+	"bytes"
+	"fmt"
+	"math/rand"
 	"time"
 
 	"github.com/pion/interceptor"
@@ -48,3 +51,101 @@ func streamInfo(ssrc uint32, pt uint8, clock uint32, fb ...string) *interceptor.
 type verTrack struct {
 	inner, outer int
 }
+
+// hdrFromSeed deterministically builds an RTP header shape: CSRC 0-15, no /
+// one-byte / two-byte extensions with pre-existing ids, marker, padding flag.
+// avoidExt is an extension id that must not be used (the TWCC id under test).
+func hdrFromSeed(hs int64, ssrc uint32, pt uint8, seq uint16, ts uint32, avoidExt uint8) *rtp.Header {
+	r := newRng(hs)
+	h := &rtp.Header{Version: 2, SSRC: ssrc, PayloadType: pt, SequenceNumber: seq, Timestamp: ts}
+	h.Marker = r.Intn(4) == 0
+	switch r.Intn(5) {
+	case 0:
+		n := 1 + r.Intn(15)
+		for i := 0; i < n; i++ {
+			h.CSRC = append(h.CSRC, r.Uint32())
+		}
+	case 1:
+		h.CSRC = []uint32{r.Uint32()}
+	}
+	switch r.Intn(4) {
+	case 1: // one-byte profile
+		n := 1 + r.Intn(3)
+		for i := 0; i < n; i++ {
+			id := uint8(1 + r.Intn(14))
+			if id == avoidExt {
+				continue
+			}
+			pl := make([]byte, 1+r.Intn(16))
+			r.Read(pl)
+			_ = h.SetExtension(id, pl)
+		}
+	case 2: // two-byte profile
+		h.Extension = true
+		h.ExtensionProfile = 0x1000
+		n := 1 + r.Intn(3)
+		for i := 0; i < n; i++ {
+			id := uint8(1 + r.Intn(200))
+			if id == avoidExt {
+				continue
+			}
+			pl := make([]byte, r.Intn(40))
+			r.Read(pl)
+			_ = h.SetExtension(id, pl)
+		}
+		if len(h.Extensions) == 0 {
+			h.Extension = false
+			h.ExtensionProfile = 0
+		}
+	}
+	return h
+}
+
+func payloadFromSeed(hs int64, n int) []byte {
+	r := newRng(hs ^ 0x7a7a)
+	b := make([]byte, n)
+	r.Read(b)
+	return b
+}
+
+// hdrEqualExcept compares two headers field by field, ignoring extension id `skip` (0 = none).
+func hdrDiff(a, b *rtp.Header, skip uint8) string {
+	if a.Version != b.Version || a.Padding != b.Padding || a.Marker != b.Marker || a.PayloadType != b.PayloadType ||
+		a.SequenceNumber != b.SequenceNumber || a.Timestamp != b.Timestamp || a.SSRC != b.SSRC {
+		return fmt.Sprintf("fixed fields differ: %+v vs %+v", hdrBrief(a), hdrBrief(b))
+	}
+	if len(a.CSRC) != len(b.CSRC) {
+		return fmt.Sprintf("CSRC count %d vs %d", len(a.CSRC), len(b.CSRC))
+	}
+	for i := range a.CSRC {
+		if a.CSRC[i] != b.CSRC[i] {
+			return fmt.Sprintf("CSRC[%d] %d vs %d", i, a.CSRC[i], b.CSRC[i])
+		}
+	}
+	ea := map[uint8][]byte{}
+	for _, id := range a.GetExtensionIDs() {
+		if id != skip {
+			ea[id] = a.GetExtension(id)
+		}
+	}
+	nb := 0
+	for _, id := range b.GetExtensionIDs() {
+		if id == skip {
+			continue
+		}
+		nb++
+		if pa, ok := ea[id]; !ok || !bytes.Equal(pa, b.GetExtension(id)) {
+			return fmt.Sprintf("extension %d differs: %x vs %x", id, pa, b.GetExtension(id))
+		}
+	}
+	if nb != len(ea) {
+		return fmt.Sprintf("extension count %d vs %d", len(ea), nb)
+	}
+	return ""
+}
+
+func hdrBrief(h *rtp.Header) string {
+	return fmt.Sprintf("{P:%v M:%v PT:%d seq:%d ts:%d ssrc:%d cc:%d ext:%v/%#x n=%d}", h.Padding, h.Marker, h.PayloadType, h.SequenceNumber, h.Timestamp, h.SSRC, len(h.CSRC), h.Extension, h.ExtensionProfile, len(h.Extensions))
+}
+
+func newRng(seed int64) *rand.Rand { return rand.New(rand.NewSource(seed)) }
